@@ -20,8 +20,8 @@ ARGS = {
     ("C05", "thorough"): ["-modes", "typeseq,bfs,random", "-typeseq-len", "5", "-bfs-depth", "4", "-bfs-budget", "40000", "-random", "2000", "-random-len", "60"],
     ("C06", "quick"): ["-modes", "bfs,random", "-bfs-depth", "4", "-bfs-budget", "3500", "-random", "500", "-random-len", "60"],
     ("C06", "thorough"): ["-modes", "bfs,random", "-bfs-depth", "5", "-bfs-budget", "60000", "-random", "5000", "-random-len", "60"],
-    ("C07", "quick"): ["-modes", "policy,random", "-policy-len", "4", "-random", "300"],
-    ("C07", "thorough"): ["-modes", "policy,bfs,random", "-policy-len", "5", "-bfs-depth", "4", "-bfs-budget", "20000", "-random", "3000", "-random-len", "60"],
+    ("C07", "quick"): ["-modes", "policy,random", "-policy-len", "4", "-random", "300", "-overwrite-race-ms", "2500"],
+    ("C07", "thorough"): ["-modes", "policy,bfs,random", "-policy-len", "5", "-bfs-depth", "4", "-bfs-budget", "20000", "-random", "3000", "-random-len", "60", "-overwrite-race-ms", "20000"],
     ("C20", "quick"): ["-modes", "bfs,random", "-bfs-reopen", "-bfs-depth", "3", "-bfs-budget", "2500", "-random", "300"],
     ("C20", "thorough"): ["-modes", "bfs,random", "-bfs-reopen", "-bfs-depth", "4", "-bfs-budget", "40000", "-random", "3000", "-random-len", "60"],
     ("C02", "quick"): ["-modes", "random", "-random", "400"],
@@ -83,6 +83,16 @@ def run(ctx, prop=None):
         cid = int(p.split()[1].rstrip(":"))
         rp = V.write_replay(ctx, "panic-%d" % cid, {"kind": "correspondence", "engine": "brokerh", "what": p, "case": cases.get(cid)})
         ctx.violations.append({"match": "panic", "replay": rp, "what": "Broker panicked: " + p})
+    race = summ.get("overwrite_race")
+    if race:
+        part["overwrite_race_search"] = {k: race[k] for k in race if k != "violations"}
+        if race.get("violations"):
+            rp = V.write_replay(ctx, "overwrite-race", {
+                "kind": "search", "engine": "brokerh", "theorem_or_correspondence": "Conc: overwritten_exactly_one_version (each Send is processed by exactly one version)",
+                "schedule": "6 sender goroutines against a loop of overwriting RegisterPipeline calls alternating two versions of (t,p)",
+                "observed": race, "repro": "brokerh -modes '' -overwrite-race-ms 4000"})
+            ctx.violations.append({"match": "broker:overwrite-race", "replay": rp,
+                                   "what": "C07: a Send racing with an overwriting RegisterPipeline was not processed by exactly one version: " + race["violations"][0]})
     mism, failures = V.eval_shards(ctx, summ["files"])
     V.prune_shards(summ["files"], keep=[f for f, _ in failures])
     for f, o in failures:
@@ -149,6 +159,16 @@ def replay(ctx, rec, path):
     print(out)
     rc, out = V.run([binp, "-out", cdir, "-modes", "", "-corpus", corpus])
     summ = json.load(open(os.path.join(cdir, "cases_summary.json")))
+    race = summ.get("overwrite_race")
+    if race:
+        part["overwrite_race_search"] = {k: race[k] for k in race if k != "violations"}
+        if race.get("violations"):
+            rp = V.write_replay(ctx, "overwrite-race", {
+                "kind": "search", "engine": "brokerh", "theorem_or_correspondence": "Conc: overwritten_exactly_one_version (each Send is processed by exactly one version)",
+                "schedule": "6 sender goroutines against a loop of overwriting RegisterPipeline calls alternating two versions of (t,p)",
+                "observed": race, "repro": "brokerh -modes '' -overwrite-race-ms 4000"})
+            ctx.violations.append({"match": "broker:overwrite-race", "replay": rp,
+                                   "what": "C07: a Send racing with an overwriting RegisterPipeline was not processed by exactly one version: " + race["violations"][0]})
     mism, failures = V.eval_shards(ctx, summ["files"])
     print("model vs implementation mismatches (case, step, op, kind):", mism, failures)
     return 1 if (mism or failures or summ.get("panics")) else 0
